@@ -27,6 +27,12 @@ CLAIMED = {
  'C02': ('bounded exhaustive deviation enumeration (every single deviation of valid response templates at every site) on the real client code through a scripted transport adapter',
          'For each of the 41 operation methods 1-3 valid responses are produced by the CIM-XML facade over a mock repository; every single deviation from a finite mutation alphabet is applied at every site (each element: delete/duplicate/move/rename to every DTD element name/insert every DTD element at every child position; each attribute: delete/add/set to 19 values; each text node: 26 replacements; every prefix truncation; byte replacement at every offset; whole-body alternatives; HTTP status/header variants; 29 transport exceptions) and delivered to the operation. Oracle: returns, or raises a pywbem.Error subclass, within the watchdog; parse errors carry request and response data. Exhaustive for single deviations.',
          'single deviations only (pairs within one element in the thorough tier); termination = 5 s watchdog; trusts the facade templates (each is checked to be accepted by pywbem)', '§5 C02'),
+ 'C05': ('bounded exhaustive enumeration of object pools (every single-attribute variation of a base object, pairs in thorough) and of all ordered pairs/triples and copy kinds x single mutations, on the real code',
+         'Per kind (9 CIM object classes, CIMDateTime, NocaseDict) a pool of 56-323 objects is built from every single-attribute variation (tagged ignorable or distinguishing); the full == matrix is evaluated (reflexivity, symmetry, transitivity via equal rows, != negation, hash and set/dict membership agreement, expected equality from the tags), and every object is copied by copy(), copy.copy, copy.deepcopy and pickle protocols 0-5 with every single mutation applied to the copy down to the documented depth to show that the original is unchanged.',
+         'expected equality follows the statement literally; where the class documentation is silent (int vs UintN of equal value, explicit defaults) no answer is demanded', '§5 C05'),
+ 'C20': ('bounded exhaustive enumeration of ValueMap/Values qualifier pairs and probe values on the real code against an independent DSP0004 reference model',
+         'All ValueMap arrays up to length 3 (4 in thorough) over a 24-atom entry alphabet x Values arrays of equal/shorter/longer size with duplicates x values_default x no ValueMap x 8 integer types x 5 element kinds, probed with every value of the 8-bit types (all 65536 values of 16-bit types on arrays <= 2 in thorough) and boundary sets otherwise; tovalues/tobinary/items are compared with mc/refmodels/valuemap.py, and only ModelError/ValueError may be raised.',
+         'trusts mc/refmodels/valuemap.py; where DSP0004 is silent (overlapping entries, facing open ranges) any claiming entry or a rejection is accepted', '§5 C20'),
 }
 NOT_YET = 'check not built yet in this round (planned, see DESIGN.md §5); not claimed until it exists'
 
